@@ -9,18 +9,7 @@ from vp import parse_sexp, to_sexp
 def norm(kind, out, line):
     if line.startswith("(exec"):
         return norm_exec(kind, out, line)
-    if kind != "impl":
-        return out
-    try:
-        o = parse_sexp(out)
-        c = parse_sexp(line)
-        if o[0] == "accept":
-            if o[1] != c[3]:
-                return "(accept-other-ast %s)" % to_sexp(o[1])
-            return "(accept)"
-        return out
-    except Exception as ex:  # pragma: no cover
-        return "(unparsable %r)" % (ex,)
+    return out
 
 
 def normal_form(e):
